@@ -3,6 +3,7 @@
    Unclaimed full statements are [Definition ... : Prop] at the end. *)
 Require Import Base.Prelude C15.Model C15.Spec.
 Require Import C15.ProofsRegions C15.ProofsFollow C15.ProofsScan C15.BoundedCommon C15.ProofsBoundedSmall.
+Require Import C15.ProofsComponents C15.ProofsOrbit C15.ProofsTerminate.
 Require Import Coq.Relations.Relation_Operators.
 
 (* ---- labelling stage: universal (any raster, any size below 2^32-1 cells) ---- *)
@@ -80,6 +81,55 @@ Theorem C15_transform_every_vertex : forall t r k, (k < length r)%nat ->
   length (transform_ring (Some t) r) = length r.
 Proof. exact transform_ring_spec. Qed.
 Print Assumptions C15_transform_every_vertex.
+
+(* ---- regions are components: universal (every raster, mask, connectivity, size below 2^32-1 cells) ---- *)
+
+(* linkedP a b : b is a 4-/8-neighbour of cell a, both unmasked, equal values.  Two unmasked cells get the same final
+   region id IFF they are joined by a path of such steps.  Proof: union-find style invariant "classes of region_lookup
+   over the provisional ids = connectivity among the cells scanned so far" (ProofsComponents.comp_inv), preserved by
+   every labelled cell (W/S and, for 8-connectivity, SW/SE neighbours; merges), then compaction maps two provisional
+   ids to the same final id iff they have the same root. *)
+Theorem C15_regions_are_components : forall vals mask conn8 nx ny,
+  0 < nx -> 0 <= ny -> nx * ny < max_region_id ->
+  exists regions, calculate_regions vals mask conn8 nx ny = Some regions /\
+    forall a b, 0 <= a < nx * ny -> 0 <= b < nx * ny -> mask_ok mask a = true -> mask_ok mask b = true ->
+      (nthZ 0 regions a = nthZ 0 regions b <-> clos_refl_trans Z (linkedP vals mask conn8 nx ny) a b).
+Proof. exact regions_are_components. Qed.
+Print Assumptions C15_regions_are_components.
+
+(* compaction: two provisional ids get the same final id iff they are in the same class of the (acyclic) lookup *)
+Theorem C15_compaction_respects_classes : forall lk region r s,
+  lk_ok lk region -> 0 <= region -> 0 <= r <= region -> 0 <= s <= region ->
+  (nthZ 0 (compact lk region) r = nthZ 0 (compact lk region) s <-> same_class lk r s).
+Proof. intros lk region r s H. now apply compact_classes. Qed.
+Print Assumptions C15_compaction_respects_classes.
+
+(* ---- the boundary follower terminates: universal ---- *)
+
+(* Started on a region boundary (exterior start: the pixel below is outside the raster or in another region; hole
+   start: the pixel above is), for ANY region array, _follow returns to its start within its fuel 4*nx*ny+1 and
+   yields a closed, on-corner, axis-parallel ring.  Proof: on coordinate states (i,j,direction) the step has a left
+   inverse on boundary states (ProofsOrbit.Tinv_T), the state space has 4*nx*ny elements, pigeonhole. *)
+Theorem C15_follow_terminates : forall (regions visited : list Z) (nx ny ij : Z) (hole : bool),
+  2 <= nx -> 0 <= ij < nx * ny ->
+  (let other := if hole then ij + nx else ij - nx in
+   outside_domain other (nx * ny) = true \/ nthZ 0 regions other <> nthZ 0 regions ij) ->
+  exists region r vis, follow regions visited nx ny ij hole = Some (region, r, vis) /\
+                       region = nthZ 0 regions ij /\ ring_okb nx ny r = true.
+Proof. exact follow_terminates. Qed.
+Print Assumptions C15_follow_terminates.
+
+(* the follower's step is injective on boundary states: following the same boundary backwards undoes it *)
+Theorem C15_follow_step_invertible : forall regions nx ny region s,
+  ProofsOrbit.valid (inrg regions nx ny region) s ->
+  ProofsOrbit.valid (inrg regions nx ny region) (T (inrg regions nx ny region) s) /\
+  Tinv (inrg regions nx ny region) (T (inrg regions nx ny region) s) = s.
+Proof.
+  intros. split.
+  - eapply T_valid; eauto. apply inrg_dom.
+  - eapply Tinv_T; eauto. apply inrg_dom.
+Qed.
+Print Assumptions C15_follow_step_invertible.
 
 (* ---- bounded: the full property on a finite domain, by computation in the kernel VM ---- *)
 (* small_shape5 nx ny : nx*ny <= 5;  small_shape nx ny : nx*ny <= 6 or 3x3 or 2x4 or 4x2  (nx, ny >= 1: 1x1, 1xN, Nx1 included).
@@ -188,9 +238,7 @@ Definition C15_lossless_full_statement : Prop :=
     exists out, polygonize_model vals mask conn8 None nx ny = Some out /\
                 lossless_check vals mask conn8 nx ny out = true.
 
-(* two unmasked cells get the same region id iff joined by a 4-/8-path of equal unmasked values *)
-Definition linkedP (vals : list Z) (mask : option (list bool)) (conn8 : bool) (nx ny a b : Z) : Prop :=
-  0 <= a < nx * ny /\ In b (neighbours conn8 nx ny a) /\ linked vals mask a b = true.
+(* the two statements that were unclaimed in round 1, now proved (as first written) *)
 Definition C15_regions_are_components_full_statement : Prop :=
   forall nx ny conn8 vals mask,
     2 <= nx -> 1 <= ny -> nx * ny < max_region_id -> lenZ vals = nx * ny ->
@@ -198,11 +246,55 @@ Definition C15_regions_are_components_full_statement : Prop :=
       forall a b, 0 <= a < nx * ny -> 0 <= b < nx * ny -> mask_ok mask a = true -> mask_ok mask b = true ->
         (nthZ 0 regions a = nthZ 0 regions b <->
          clos_refl_trans Z (linkedP vals mask conn8 nx ny) a b).
+Theorem C15_regions_are_components_full : C15_regions_are_components_full_statement.
+Proof. intros nx ny conn8 vals mask H1 H2 H3 _. apply regions_are_components; lia. Qed.
+Print Assumptions C15_regions_are_components_full.
 
-(* the follower started on a region boundary returns to its start within its fuel 4*nx*ny+1 *)
 Definition C15_follow_terminates_full_statement : Prop :=
   forall (regions visited : list Z) (nx ny ij : Z) (hole : bool),
     2 <= nx -> 1 <= ny -> lenZ regions = nx * ny -> 0 <= ij < nx * ny ->
     (let other := if hole then ij + nx else ij - nx in
      outside_domain other (nx * ny) = true \/ nthZ 0 regions other <> nthZ 0 regions ij) ->
     exists out, follow regions visited nx ny ij hole = Some out.
+Theorem C15_follow_terminates_full : C15_follow_terminates_full_statement.
+Proof.
+  intros regions visited nx ny ij hole H1 _ _ H2 H3.
+  destruct (follow_terminates regions visited nx ny ij hole H1 H2 H3) as (rg & r & vis & E & _). eauto.
+Qed.
+Print Assumptions C15_follow_terminates_full.
+
+(* non-vacuity: in the U raster (rows bottom-up 1 0 1 / 1 1 1, nx = 3) cells 0 and 2 are joined by the path
+   0 - 3 - 4 - 5 - 2 and get the same region; cell 1 gets another region, hence (by the theorem) no path joins 0 and 1 *)
+Example C15_nonvacuous_components :
+  clos_refl_trans Z (linkedP [1; 0; 1; 1; 1; 1] None false 3 2) 0 2 /\
+  calculate_regions [1; 0; 1; 1; 1; 1] None false 3 2 = Some [1; 2; 1; 1; 1; 1] /\
+  ~ clos_refl_trans Z (linkedP [1; 0; 1; 1; 1; 1] None false 3 2) 0 1.
+Proof.
+  assert (S : forall a b, 0 <= a < 6 -> In b (neighbours false 3 2 a) ->
+              linked [1; 0; 1; 1; 1; 1] None a b = true ->
+              clos_refl_trans Z (linkedP [1; 0; 1; 1; 1; 1] None false 3 2) a b).
+  { intros a b H1 H2 H3. apply rt_step. unfold linkedP. auto. }
+  split; [|split; [reflexivity|]].
+  - apply rt_trans with 3; [apply S; [lia|cbn; auto|reflexivity]|].
+    apply rt_trans with 4; [apply S; [lia|cbn; auto|reflexivity]|].
+    apply rt_trans with 5; [apply S; [lia|cbn; auto|reflexivity]|].
+    apply S; [lia|cbn; auto|reflexivity].
+  - intros Hp.
+    destruct (C15_regions_are_components [1; 0; 1; 1; 1; 1] None false 3 2 ltac:(lia) ltac:(lia) ltac:(reflexivity))
+      as (regions & Hr & Hiff).
+    injection Hr as <-. apply (Hiff 0 1) in Hp; try reflexivity; try lia. discriminate Hp.
+Qed.
+
+(* non-vacuity: the exterior start (pixel 0) and the hole start (pixel 1, below the hole) of the 3x3 ring satisfy the
+   boundary hypothesis, and the follower returns the expected rings *)
+Example C15_nonvacuous_follow :
+  (outside_domain (0 - 3) (3 * 3) = true \/ nthZ 0 [1; 1; 1; 1; 0; 1; 1; 1; 1] (0 - 3) <> nthZ 0 [1; 1; 1; 1; 0; 1; 1; 1; 1] 0) /\
+  (outside_domain (1 + 3) (3 * 3) = true \/ nthZ 0 [1; 1; 1; 1; 0; 1; 1; 1; 1] (1 + 3) <> nthZ 0 [1; 1; 1; 1; 0; 1; 1; 1; 1] 1) /\
+  (exists vis, follow [1; 1; 1; 1; 0; 1; 1; 1; 1] (repeat 0 9%nat) 3 3 0 false =
+               Some (1, [(0, 0); (3, 0); (3, 3); (0, 3); (0, 0)], vis)) /\
+  (exists vis, follow [1; 1; 1; 1; 0; 1; 1; 1; 1] (repeat 0 9%nat) 3 3 1 true =
+               Some (1, [(2, 1); (1, 1); (1, 2); (2, 2); (2, 1)], vis)).
+Proof.
+  split; [left; reflexivity|]. split; [right; cbn; discriminate|].
+  split; eexists; vm_compute; reflexivity.
+Qed.
